@@ -184,6 +184,38 @@ let do_term args =
      | _ -> "BADKIND")
   | _ -> "BADARGS"
 
+(* ---- build script model: grammar texts are registered with their real header and code ---- *)
+let bs_table : (Stdlib.String.t, (n list * n list * n list option)) Hashtbl.t = Hashtbl.create 8
+
+let do_bs args =
+  (* ops separated by ';' : Ek (edit to registered grammar k, E- = unreadable), P<hex>, F0/F1, D, R *)
+  match args with
+  | [ops] ->
+    let lookup_hdr g = let r = ref [] in Hashtbl.iter (fun _ (t, h, _) -> if t = g then r := h) bs_table; !r in
+    let lookup_code g = let r = ref None in Hashtbl.iter (fun _ (t, _, c) -> if t = g then r := c) bs_table; !r in
+    let fmt x = x in
+    let conf = ref { prefix = []; format = false } in
+    let fs = ref { gfile = None; dest = None; writes = O } in
+    let out = Buffer.create 64 in
+    List.iter (fun o ->
+        if o <> "" then begin
+          let arg = String.sub o 1 (String.length o - 1) in
+          (match o.[0] with
+           | 'E' -> fs := { !fs with gfile = (if arg = "-" then None else let (t, _, _) = Hashtbl.find bs_table arg in Some t) }
+           | 'P' -> conf := { !conf with prefix = unhex arg }
+           | 'F' -> conf := { !conf with format = (arg = "1") }
+           | 'D' -> fs := { !fs with dest = None }
+           | 'R' ->
+             let (r, s') = bs_run lookup_hdr lookup_code fmt !conf !fs in
+             fs := s';
+             Buffer.add_string out (match r with ROk -> "O" | RErr -> "E");
+             Buffer.add_string out (Printf.sprintf ":%d:%s;" (int_of_nat s'.writes)
+                                      (match s'.dest with None -> "-" | Some d -> Digest.to_hex (Digest.string (hex d))))
+           | _ -> failwith "bs op")
+        end) (String.split_on_char ';' ops);
+    Buffer.contents out
+  | _ -> "BADARGS"
+
 let pretty args =
   match args with
   | [text; pos; _] ->
@@ -204,6 +236,8 @@ let () =
            | "parse" :: args -> do_parse args
            | "spec" :: args -> do_spec args
            | "term" :: args -> do_term args
+           | ["bsreg"; k; t; h; c] -> Hashtbl.replace bs_table k (unhex t, unhex h, (if c = "-" then None else Some (unhex c))); "SET"
+           | "bs" :: args -> do_bs args
            | other :: _ -> "UNKNOWN\t" ^ other
            | [] -> "EMPTY"
          with
